@@ -309,7 +309,19 @@ func runRawInner(s *RawScript) (bool, *vt.Finding) {
 			return true, nil
 		}
 		if _, ok := applicable[w.HTTP]; !ok {
-			return true, vt.Failf("rejected/status/"+names[0]+"/http", "%s: answered with %d, expected one of %v", desc, w.HTTP, keysOf(applicable))
+			fsig := "rejected/status/" + names[0] + "/http"
+			_, unauth := applicable[401]
+			_, badEnc := applicable[400]
+			if w.HTTP == 500 && !supported && (unauth || badEnc && applicable[400] != "malformed-body") {
+				// the rejection was produced in front of the OTLP handler (authenticator or
+				// decompressor) and rendered by the receiver's error handler, which knows
+				// no rendering for this Content-Type
+				fsig = "rejected/status/500-from-error-handler-without-supported-content-type"
+			}
+			f := vt.Failf(fsig, "%s: answered with %d, expected one of %v", desc, w.HTTP, keysOf(applicable))
+			if !c.Soft(f, s) {
+				return true, f
+			}
 		}
 		return true, nil
 	}
@@ -367,5 +379,5 @@ func keysOf(m map[int]string) []int {
 
 func TestRaw(t *testing.T) {
 	E = newEnv(t)
-	vt.Run(t, cRaw, vt.N(5000, 120000), genRaw, runRaw)
+	vt.Run(t, cRaw, vt.N(8000, 400000), genRaw, runRaw)
 }
